@@ -137,3 +137,249 @@ Proof.
   - destruct (wstep cap rest q j) as [[rest' q1]|] eqn:E; [|discriminate]. injection Hs as <- <-.
     rewrite pipe_ok_cons. repeat split; auto. eapply IH; [apply poison_last_map; exact HX|exact H6|exact E].
 Qed.
+
+(* ------------------------------------------------------------------------------------------- *)
+(* bookkeeping lemmas about the worker list *)
+Definition seg_items (sg : list seg) : nat :=
+  tot (fun s => length (sq s) + match sphase s with PProd _ => 1 | _ => 0 end) sg.
+Definition quiet (s : seg) : bool :=
+  match sphase s with PProd _ => false | PCons => match sq s with [] => true | _ => false end | PDone => true end.
+
+Lemma wstep_items : forall cap sg q i sg' q', wstep cap sg q i = Some (sg', q') ->
+  length q' + seg_items sg' = length q + seg_items sg /\ length sg' = length sg /\ map sf sg' = map sf sg.
+Proof.
+  intros cap. induction sg as [|s rest IH]; intros q i sg' q' Hs; simpl in Hs; [discriminate|].
+  destruct i as [|j].
+  - destruct (sphase s) as [|y|] eqn:Eph.
+    + destruct (sq s) as [|x q1] eqn:Eq; [discriminate|]. injection Hs as <- <-.
+      unfold seg_items. simpl. rewrite Eph, Eq. simpl. repeat split; lia.
+    + destruct rest as [|s2 rest2].
+      * destruct (length q <? cap); [|discriminate]. injection Hs as <- <-.
+        unfold seg_items, after_produce. simpl. rewrite Eph, app_length. simpl. destruct (is_cpoison y); simpl; repeat split; lia.
+      * destruct (length (sq s2) <? cap); [|discriminate]. injection Hs as <- <-.
+        unfold seg_items, after_produce. simpl. rewrite Eph, app_length. simpl. destruct (is_cpoison y); simpl; repeat split; lia.
+    + discriminate.
+  - destruct (wstep cap rest q j) as [[rest' q1]|] eqn:E; [|discriminate]. injection Hs as <- <-.
+    destruct (IH _ _ _ _ E) as (A & B & C). unfold seg_items in *. simpl. repeat split; try lia. f_equal. exact C.
+Qed.
+
+Lemma all_done_no_step : forall cap sg q i, all_done sg = true -> wstep cap sg q i = None.
+Proof.
+  intros cap. induction sg as [|s rest IH]; intros q i H; simpl in *; [reflexivity|].
+  apply andb_true_iff in H. destruct H as [Hs Hr]. destruct i as [|j].
+  - destruct (sphase s); try discriminate. reflexivity.
+  - rewrite (IH q j Hr). reflexivity.
+Qed.
+
+(* all workers done => the upstream has produced its whole stream, and nothing is queued or held *)
+Lemma all_done_upstream : forall sg X p, sg <> [] -> pipe_ok X p sg -> all_done sg = true -> p = length X /\ seg_items sg = 0.
+Proof.
+  induction sg as [|s rest IH]; intros X p Hne H Hd; [congruence|].
+  rewrite pipe_ok_cons in H. destruct H as (H1 & H2 & H3 & H4 & H5 & H6).
+  simpl in Hd. apply andb_true_iff in Hd. destruct Hd as [Hs Hr].
+  destruct (sphase s) eqn:Eph; try discriminate.
+  assert (p = length X) by lia. split; [assumption|].
+  unfold seg_items. simpl. rewrite Eph. rewrite H4. replace (p - length (sseen s)) with 0 by lia. simpl.
+  destruct rest as [|s2 rest2]; [reflexivity|].
+  unfold produced in H6. rewrite Eph in H6. destruct (IH _ _ ltac:(discriminate) H6 Hr) as [_ Hi]. unfold seg_items in Hi. lia.
+Qed.
+
+(* a step that leaves every worker done has just put the poison into queue 0 *)
+Lemma wstep_alldone : forall cap sg X p q i sg' q', pipe_ok X p sg -> wstep cap sg q i = Some (sg', q') ->
+  all_done sg' = true -> In CPoison q'.
+Proof.
+  intros cap. induction sg as [|s rest IH]; intros X p q i sg' q' H Hs Hd; simpl in Hs; [discriminate|].
+  rewrite pipe_ok_cons in H. destruct H as (H1 & H2 & H3 & H4 & H5 & H6).
+  destruct i as [|j].
+  - destruct (sphase s) as [|y|] eqn:Eph.
+    + destruct (sq s) as [|x q1]; [discriminate|]. injection Hs as <- <-. simpl in Hd. discriminate.
+    + destruct rest as [|s2 rest2].
+      * destruct (length q <? cap); [|discriminate]. injection Hs as <- <-. simpl in Hd. unfold after_produce in Hd.
+        destruct (is_cpoison y) eqn:Ep; [|discriminate]. destruct y; try discriminate. apply in_or_app. right. left. reflexivity.
+      * destruct (length (sq s2) <? cap); [|discriminate]. injection Hs as <- <-. exfalso.
+        simpl in Hd. apply andb_true_iff in Hd. destruct Hd as [_ Hd]. apply andb_true_iff in Hd. destruct Hd as [Hd2 _].
+        simpl in Hd2. destruct (sphase s2) eqn:E2; try discriminate.
+        unfold produced in H6. rewrite Eph in H6. rewrite pipe_ok_cons in H6. destruct H6 as (_ & A & B & _ & C & _).
+        rewrite E2 in C. rewrite map_length in *. destruct H5 as [Hc _]. lia.
+    + discriminate.
+  - destruct (wstep cap rest q j) as [[rest' q1]|] eqn:E; [|discriminate]. injection Hs as <- <-.
+    simpl in Hd. apply andb_true_iff in Hd. destruct Hd as [_ Hd]. eapply IH; eassumption.
+Qed.
+
+(* a worker that holds an item, or has one queued, can step (there is always room downstream: only b items exist) *)
+Lemma wstep_enabled : forall cap sg q, length q + seg_items sg <= cap -> existsb (fun s => negb (quiet s)) sg = true ->
+  exists i sg' q', wstep cap sg q i = Some (sg', q').
+Proof.
+  intros cap. induction sg as [|s rest IH]; intros q Hcap Hex; simpl in Hex; [discriminate|].
+  unfold seg_items in Hcap. simpl in Hcap. fold (seg_items rest) in Hcap.
+  destruct (quiet s) eqn:Eq.
+  - simpl in Hex. destruct (IH q ltac:(lia) Hex) as (i & sg' & q' & Hs). exists (S i). simpl. rewrite Hs. eauto.
+  - exists 0. simpl. unfold quiet in Eq. destruct (sphase s) as [|y|] eqn:Eph; try discriminate.
+    + destruct (sq s); [discriminate|]. eauto.
+    + destruct rest as [|s2 rest2].
+      * assert (Hl : (length q <? cap) = true) by (apply Nat.ltb_lt; unfold seg_items in Hcap; simpl in Hcap; lia). rewrite Hl. eauto.
+      * assert (Hl : (length (sq s2) <? cap) = true) by (apply Nat.ltb_lt; unfold seg_items in Hcap; simpl in Hcap; lia). rewrite Hl. eauto.
+Qed.
+
+(* everything quiet and the upstream finished => every worker is done *)
+Lemma quiet_all_done : forall sg X p, poison_last X -> pipe_ok X p sg -> p = length X ->
+  existsb (fun s => negb (quiet s)) sg = false -> all_done sg = true.
+Proof.
+  induction sg as [|s rest IH]; intros X p HX H Hp Hq; [reflexivity|].
+  rewrite pipe_ok_cons in H. destruct H as (H1 & H2 & H3 & H4 & H5 & H6).
+  simpl in Hq. apply orb_false_iff in Hq. destruct Hq as [Hqs Hqr]. apply negb_false_iff in Hqs.
+  unfold quiet in Hqs. simpl. destruct (sphase s) eqn:Eph; try discriminate.
+  - (* PCons with an empty queue although the upstream produced everything: it has consumed everything, poison included *)
+    exfalso. destruct (sq s) eqn:Es; [|discriminate].
+    assert (Hc : length (sseen s) = length X).
+    { destruct (Nat.eq_dec (length (sseen s)) (length X)); [assumption|]. exfalso.
+      assert (Hl : length (firstn (p - length (sseen s)) (skipn (length (sseen s)) X)) = 0) by (rewrite <- H4; reflexivity).
+      rewrite firstn_length, skipn_length in Hl. lia. }
+    apply H5. rewrite H1, Hc, firstn_all. destruct HX as (body & -> & _). apply in_or_app. right. left. reflexivity.
+  - simpl. unfold produced in H6. rewrite Eph in H6.
+    apply (IH _ _ (poison_last_map _ _ HX) H6); [rewrite map_length; lia|exact Hqr].
+Qed.
+
+(* ------------------------------------------------------------------------------------------- *)
+Section ChainInv.
+Variable b : nat.                    (* block_count = capacity of every queue *)
+Variable payloads : list payload.    (* what the source writes, block by block *)
+Variable fs : list (payload -> payload).   (* the stage functions, source excluded; the last worker recycles *)
+Hypothesis Hb : 1 <= b.
+Hypothesis Hfs : fs <> [].
+
+Definition X0 : list citem := map Blk payloads ++ [CPoison].
+Lemma X0_poison_last : poison_last X0.
+Proof. exists (map Blk payloads). split; [reflexivity|]. unfold no_poison. apply forallb_forall. intros x H. apply in_map_iff in H. destruct H as (p & <- & _). reflexivity. Qed.
+Lemma X0_length : length X0 = S (length payloads).
+Proof. unfold X0. rewrite app_length, map_length. simpl. lia. Qed.
+
+Definition src_p (c : chain) : nat := match sphs c with SDone => length X0 | _ => length payloads - length (srest c) end.
+Definition src_hold (c : chain) : nat := match sphs c with SProd => 1 | _ => 0 end.
+
+Record KInv (c : chain) : Prop := {
+  K1 : exists done, payloads = done ++ srest c;
+  K2 : sphs c = SDone -> srest c = [];
+  K3 : pipe_ok X0 (src_p c) (segs c);
+  K4 : map sf (segs c) = fs;
+  K5 : match mainp c with
+       | MJoin => length (q0 c) + src_hold c + seg_items (segs c) = b
+       | MDrain n => sphs c = SDone /\ all_done (segs c) = true /\ n + length (q0 c) = b /\ In CPoison (q0 c)
+       | MDone => sphs c = SDone /\ all_done (segs c) = true
+       | MAbort => False
+       end;
+  K6 : mainp c = MJoin -> all_done (segs c) = true -> In CPoison (q0 c)
+}.
+
+Lemma segs_ne : forall c, KInv c -> segs c <> [].
+Proof. intros c H E. destruct H as [_ _ _ H4 _ _]. rewrite E in H4. simpl in H4. congruence. Qed.
+
+Lemma all_done_src_done : forall c, KInv c -> all_done (segs c) = true -> sphs c = SDone /\ seg_items (segs c) = 0.
+Proof.
+  intros c H Hd. pose proof (segs_ne c H) as Hne. destruct H as [[done K1] K2 K3 K4 K5 K6].
+  destruct (all_done_upstream _ _ _ Hne K3 Hd) as [Hp Hi]. split; [|exact Hi].
+  unfold src_p in Hp. destruct (sphs c); auto; rewrite X0_length in Hp; lia.
+Qed.
+
+Lemma chain_init_inv : KInv (chain_init b payloads fs).
+Proof.
+  unfold chain_init. constructor; simpl.
+  - exists []. reflexivity.
+  - discriminate.
+  - unfold src_p. simpl. rewrite Nat.sub_diag. clear Hfs. generalize X0. induction fs as [|f r IH]; intros X; [exact I|].
+    simpl map. rewrite pipe_ok_cons. simpl. repeat split; auto; try lia; try apply IH.
+  - rewrite map_map. simpl. apply map_id.
+  - rewrite repeat_length. unfold src_hold, seg_items. simpl. clear. induction fs; simpl; lia.
+  - intros _ Hd. destruct fs; [congruence|]. simpl in Hd. discriminate.
+Qed.
+
+Lemma nth_X0_payload : forall done p r, payloads = done ++ p :: r -> nth (length done) X0 Empty = Blk p.
+Proof.
+  intros done p r E. unfold X0. rewrite E, map_app. simpl. rewrite <- app_assoc. rewrite app_nth2 by (rewrite map_length; lia).
+  rewrite map_length, Nat.sub_diag. reflexivity.
+Qed.
+
+Lemma seg_items_push : forall sg y, sg <> [] -> seg_items (push sg y) = S (seg_items sg).
+Proof. intros [|s rest] y H; [congruence|]. unfold seg_items. simpl. rewrite app_length. simpl. lia. Qed.
+Lemma push_sf : forall sg y, map sf (push sg y) = map sf sg.
+Proof. intros [|s rest] y; reflexivity. Qed.
+
+Ltac cfields := cbn [q0 sphs srest segs mainp].
+
+Lemma chain_step_inv : forall c t c', KInv c -> cstep b c t = Some c' -> KInv c'.
+Proof.
+  intros c t c' HK Hs. pose proof (segs_ne c HK) as Hne. pose proof HK as [[done K1] K2 K3 K4 K5 K6].
+  destruct t as [|i|]; simpl in Hs.
+  - (* source *)
+    destruct (sphs c) eqn:Eph; [| |discriminate].
+    + destruct (q0 c) as [|x q'] eqn:Eq; [discriminate|]. injection Hs as <-.
+      assert (Hnd : all_done (segs c) = true -> False).
+      { intros Hd. destruct (all_done_src_done c HK Hd) as [E _]. congruence. }
+      constructor; cfields; auto;
+        try solve [exists done; exact K1];
+        try solve [discriminate];
+        try solve [unfold src_p in *; cfields; rewrite Eph in K3; exact K3];
+        try solve [intros _ Hd; destruct (Hnd Hd)].
+      destruct (mainp c); unfold src_hold in *; cfields; simpl in *; rewrite ?Eph in *; try lia; destruct K5 as (E & _); congruence.
+    + destruct (segs c) as [|s1 rest] eqn:Es; [congruence|].
+      destruct (length (sq s1) <? b); [|discriminate].
+      assert (Hmj : mainp c = MJoin).
+      { destruct (mainp c); auto; try (destruct K5 as (E & _); congruence). destruct K5. }
+      unfold src_p in K3. rewrite Eph in K3.
+      destruct (srest c) as [|p r] eqn:Er; injection Hs as <-.
+      * (* Link::Poison: the held block becomes the poison *)
+        cbn [length] in K3. rewrite Nat.sub_0_r in K3.
+        assert (Hpush := pipe_push (s1 :: rest) X0 (length payloads) K3 ltac:(rewrite X0_length; lia)).
+        assert (Hn : nth (length payloads) X0 Empty = CPoison).
+        { unfold X0. rewrite app_nth2 by (rewrite map_length; lia). rewrite map_length, Nat.sub_diag. reflexivity. }
+        rewrite Hn in Hpush. cbn [push] in Hpush.
+        constructor; cfields; auto;
+          try solve [exists done; exact K1];
+          try solve [unfold src_p; cfields; rewrite X0_length; exact Hpush].
+        all: try solve [rewrite Hmj in *; unfold src_hold in *; cfields; rewrite Eph in K5; unfold seg_items in *; simpl in *; rewrite app_length; simpl; lia].
+      * assert (Hd : length done = length payloads - length (p :: r)) by (rewrite K1, app_length; lia).
+        rewrite <- Hd in K3.
+        assert (Hpush := pipe_push (s1 :: rest) X0 (length done) K3 ltac:(rewrite X0_length, K1, app_length; simpl; lia)).
+        rewrite (nth_X0_payload done p r K1) in Hpush. cbn [push] in Hpush.
+        constructor; cfields; auto;
+          try solve [exists (done ++ [p]); rewrite <- app_assoc; exact K1];
+          try solve [discriminate];
+          try solve [unfold src_p; cfields; replace (length payloads - length r) with (S (length done)) by (rewrite K1, app_length; simpl; lia); exact Hpush].
+        all: try solve [rewrite Hmj in *; unfold src_hold in *; cfields; rewrite Eph in K5; unfold seg_items in *; simpl in *; rewrite app_length; simpl; lia].
+  - (* worker i *)
+    destruct (wstep b (segs c) (q0 c) i) as [[sg' q']|] eqn:Ew; [|discriminate]. injection Hs as <-.
+    destruct (wstep_items _ _ _ _ _ _ Ew) as (Hit & Hlen & Hsf).
+    assert (Hmj : mainp c = MJoin).
+    { destruct (mainp c); auto.
+      - destruct K5 as (_ & Hd & _). rewrite (all_done_no_step b _ (q0 c) i Hd) in Ew. discriminate.
+      - destruct K5 as (_ & Hd). rewrite (all_done_no_step b _ (q0 c) i Hd) in Ew. discriminate.
+      - destruct K5. }
+    constructor; cfields; auto;
+      try solve [exists done; exact K1];
+      try solve [unfold src_p in *; cfields; eapply wstep_ok; [apply X0_poison_last|exact K3|exact Ew]];
+      try solve [congruence];
+      try solve [rewrite Hmj in *; unfold src_hold in *; cfields; lia];
+      try solve [intros _ Hd; eapply wstep_alldone; [exact K3|exact Ew|exact Hd]].
+  - (* main thread: Chain::Wait *)
+    destruct (mainp c) as [|n| |] eqn:Em; try discriminate.
+    + destruct (sphs c) eqn:Eph; try discriminate. destruct (all_done (segs c)) eqn:Ed; [|discriminate]. injection Hs as <-.
+      destruct (all_done_src_done c HK Ed) as [_ Hi].
+      constructor; cfields; auto;
+        try solve [exists done; exact K1];
+        try solve [unfold src_p in *; cfields; rewrite Eph in *; exact K3];
+        try solve [unfold src_hold in K5; rewrite Eph in K5; repeat split; auto; lia];
+        try solve [discriminate].
+    + destruct K5 as (Eph & Ed & Hn & Hin). destruct (q0 c) as [|x q'] eqn:Eq; [discriminate|].
+      assert (Hcase : x = CPoison \/ (x <> CPoison /\ In CPoison q')).
+      { destruct x; auto; right; (split; [discriminate|]); destruct Hin as [E|E]; try discriminate; exact E. }
+      assert (Hstep : x <> CPoison -> (n =? b) = false /\ S n + length q' = b /\ In CPoison q').
+      { intros Hx. destruct Hcase as [E|[_ Hin']]; [congruence|]. simpl in Hn.
+        assert (1 <= length q') by (destruct q'; [destruct Hin'|simpl; lia]). repeat split; auto; [apply Nat.eqb_neq; lia|lia]. }
+      destruct x as [pp| |]; injection Hs as <-.
+      * destruct (Hstep ltac:(discriminate)) as (Hnb & Hn' & Hin'). rewrite Hnb.
+        constructor; cfields; auto; try solve [exists done; exact K1]; try solve [unfold src_p in *; cfields; exact K3]; try solve [discriminate].
+      * destruct (Hstep ltac:(discriminate)) as (Hnb & Hn' & Hin'). rewrite Hnb.
+        constructor; cfields; auto; try solve [exists done; exact K1]; try solve [unfold src_p in *; cfields; exact K3]; try solve [discriminate].
+      * constructor; cfields; auto; try solve [exists done; exact K1]; try solve [unfold src_p in *; cfields; exact K3]; try solve [discriminate].
+Qed.
+End ChainInv.
